@@ -194,6 +194,28 @@ GENERIC_GROUP_VARIANTS = [
 ]
 
 
+# methods whose return value is wrapped by cglue (`-> Self`, `-> Self::Assoc` wrapped into an object): edits of their own
+# signature, and of the interface of the object they hand out, are edits of the C-visible interface like any other
+WRAPPED_BASE = """    #[cglue_trait] pub trait Inner { fn val(&self, a0: u32) -> u32; }
+    #[cglue_trait] pub trait Outer {
+        #[wrap_with_obj(Inner)]
+        type A: Inner + 'static;
+        fn get(&self, a0: u32) -> Self::A;
+        fn dup(&self, a0: u32) -> Self;
+        fn plain(&self, a0: u32) -> u32;
+    }"""
+WRAPPED_EDITS = [
+    ("identical copy", None, None, True),
+    ("wrapped-return method get: argument u32 -> i32", "fn get(&self, a0: u32) -> Self::A;", "fn get(&self, a0: i32) -> Self::A;", False),
+    ("wrapped-return method get: one more argument", "fn get(&self, a0: u32) -> Self::A;", "fn get(&self, a0: u32, a1: u8) -> Self::A;", False),
+    ("wrapped-return method get: receiver ref -> mut", "fn get(&self, a0: u32) -> Self::A;", "fn get(&mut self, a0: u32) -> Self::A;", False),
+    ("Self-returning method dup: argument u32 -> i32", "fn dup(&self, a0: u32) -> Self;", "fn dup(&self, a0: i32) -> Self;", False),
+    ("Self-returning method dup: renamed", "fn dup(&self, a0: u32) -> Self;", "fn dup2(&self, a0: u32) -> Self;", False),
+    ("interface of the returned object: Inner::val returns i32", "fn val(&self, a0: u32) -> u32;", "fn val(&self, a0: u32) -> i32;", False),
+    ("interface of the returned object: Inner gains a method", "fn val(&self, a0: u32) -> u32;", "fn val(&self, a0: u32) -> u32; fn val2(&self) -> u8;", False),
+    ("plain method next to them: argument u32 -> u64", "fn plain(&self, a0: u32) -> u32;", "fn plain(&self, a0: u64) -> u32;", False),
+]
+
 # single edits *inside* a trait of the group; the group definition itself is unchanged and the comparison goes through the group's layout
 GTRAIT_LINES = {
     "Ma": "#[cglue_trait] pub trait Ma { fn ma(&self) -> u64; }",
@@ -258,6 +280,14 @@ def main():
             b = "%s::Grp%s<'static>" % (mod, kind)
             checks.append((len(meta), a, b))
             meta.append(dict(id=len(meta), base="Grp", edit=desc, kind=kind, interfaces_equal=False))
+    body.append("pub mod wbase {\n    use super::*;\n%s\n}" % WRAPPED_BASE)
+    for wi, (desc, a_, b_, equal) in enumerate(WRAPPED_EDITS):
+        text = WRAPPED_BASE if a_ is None else WRAPPED_BASE.replace(a_, b_)
+        assert a_ is None or text != WRAPPED_BASE
+        body.append("pub mod w%d {\n    use super::*;\n%s\n}" % (wi, text))
+        for kind in ("Box", "ArcBox"):
+            checks.append((len(meta), "wbase::Outer%s<'static>" % kind, "w%d::Outer%s<'static>" % (wi, kind)))
+            meta.append(dict(id=len(meta), base="Outer", edit=desc, kind=kind, interfaces_equal=equal))
     body.append("fn main() {")
     for i, a, b in checks:
         body.append("    println!(\"{{\\\"k\\\":\\\"pair\\\",\\\"id\\\":%d,\\\"ab\\\":\\\"{}\\\",\\\"ba\\\":\\\"{}\\\",\\\"aa\\\":\\\"{}\\\",\\\"a_none\\\":\\\"{}\\\",\\\"none_b\\\":\\\"{}\\\"}}\", vname(compare_layouts(Some(<%s as StableAbi>::LAYOUT), Some(<%s as StableAbi>::LAYOUT))), vname(compare_layouts(Some(<%s as StableAbi>::LAYOUT), Some(<%s as StableAbi>::LAYOUT))), vname(compare_layouts(Some(<%s as StableAbi>::LAYOUT), Some(<%s as StableAbi>::LAYOUT))), vname(compare_layouts(Some(<%s as StableAbi>::LAYOUT), None)), vname(compare_layouts(None, Some(<%s as StableAbi>::LAYOUT))));" % (i, a, b, b, a, a, a, a, b))
